@@ -3,6 +3,7 @@ package rules
 import (
 	"fmt"
 	"go/ast"
+	"go/token"
 	"go/types"
 	"sort"
 	"strings"
@@ -42,9 +43,13 @@ func failoverPolicy(typeName string) pw.Policy {
 				return true
 			}
 			sig, _ := fn.Type().(*types.Signature)
-			return sig != nil && sig.Recv() == nil && !fn.Exported()
+			if sig != nil && sig.Recv() == nil && !fn.Exported() {
+				return true
+			}
+			// methods of unexported helper types declared with the frontend (a key-lock table owning the map and its mutex, …)
+			return frontendHelperMethod(fn)
 		},
-		SpawnDeclared: func(fn *types.Func) bool { return sameRecvNamed(fn, typeName) },
+		SpawnDeclared: func(fn *types.Func) bool { return sameRecvNamed(fn, typeName) || frontendHelperMethod(fn) },
 		// TTL(ctx) is not a function of ctx alone inside Get: the builder may lower the cell in between (WithTTL(ctx, ttl, true)),
 		// so two reads of it are two values
 		Pure:     func(fn *types.Func) bool { return pw.FuncName(fn) != "cache.TTL" && basePure(fn) },
@@ -121,6 +126,16 @@ func (c *Ctx) failover(name string) *FO {
 		fo.Err = fmt.Errorf("anchor %s.Get does not resolve", name)
 		return fo
 	}
+	if frontendFiles == nil {
+		files := map[string]bool{}
+		for _, sib := range siblings {
+			if _, fn := c.funcDecl(sib + ".Get"); fn != nil {
+				files[c.Pkg.Fset.Position(fn.Pos()).Filename] = true
+			}
+		}
+		fset := c.Pkg.Fset
+		frontendFiles = func(p token.Pos) bool { return files[fset.Position(p).Filename] }
+	}
 	fo.E = pw.New(c.Pkg, failoverPolicy(name))
 	fo.Paths, fo.Err = fo.E.Run(fo.Fn)
 	if fo.Err != nil {
@@ -156,6 +171,27 @@ func (c *Ctx) failover(name string) *FO {
 	c.R.Count("paths:"+name+".Get", len(fo.Paths))
 	return fo
 }
+
+// frontendHelperMethod: fn is a method of an unexported named type declared in one of the files that declare the Failover
+// frontends (recognised by the declaration site of the receiver type, kept by the rules context).
+func frontendHelperMethod(fn *types.Func) bool {
+	sig, _ := fn.Type().(*types.Signature)
+	if sig == nil || sig.Recv() == nil {
+		return false
+	}
+	t := sig.Recv().Type()
+	if p, ok := t.(*types.Pointer); ok {
+		t = p.Elem()
+	}
+	nt, ok := t.(*types.Named)
+	if !ok || nt.Obj().Exported() || frontendFiles == nil {
+		return false
+	}
+	return frontendFiles(nt.Obj().Pos())
+}
+
+// frontendFiles reports whether a position lies in a file declaring Failover.Get / FailoverOf.Get; set by Ctx.failover.
+var frontendFiles func(token.Pos) bool
 
 func klTypeOf(sib string) string {
 	if sib == "FailoverOf" {
